@@ -1,4 +1,4 @@
-PROFILE = {"weights": [4, 3, 1, 1, 2, 1, 2, 1, 0, 0], "act": {"tick": 6, "connect": 5, "feed": 10, "connect_result": 6, "plan": 2, "peer_close": 3, "peer_reset": 3}}
+PROFILE = {"weights": [4, 3, 1, 1, 2, 1, 2, 1, 0, 0], "act": {"tick": 6, "connect": 5, "feed": 10, "connect_result": 6, "plan": 2, "peer_close": 3, "peer_reset": 3, "garbage": 2}}
 ASSUME = ["each connection carries at most one CER; an outbound connection never claims to be a different configured peer",
           "a connection belongs to the peer it was dialled to, or to the Origin-Host of the CER that was answered 2001 on it"]
 
@@ -12,3 +12,8 @@ def plans(tier):
     sim = [dict(cfg="A", depth=12, maxtime=6, alpha=["cer", "dwr", "dpr", "dpa", "req"], num=400 if th else 60, maxconn=5),
            dict(cfg="C", depth=12, maxtime=8, alpha=["cer", "cea", "dwa", "dpr", "dpa", "req"], num=400 if th else 60, maxconn=6)]
     return mc, sim
+
+def enum_plans(tier):
+    th = tier == "thorough"
+    return [dict(cfg="A", depth=6 if th else 5, maxtime=2, alpha=["cerok", "dpr", "garbage"], faults=True, maxconn=2),
+            dict(cfg="B", depth=6 if th else 5, maxtime=3, alpha=["ceaok", "dpr"], faults=True, maxconn=2)]
